@@ -297,7 +297,7 @@ func execC02Late(ctx *core.Ctx, c *evCase) {
 		}
 		wm := wmAt[i]
 		firedBefore := res.Emits[i].DelsAtStart // deliveries observed before this Emit started
-		var covering []*batch                  // fired windows covering the row, observed before its Emit
+		var covering []*batch                   // fired windows covering the row, observed before its Emit
 		for _, d := range order {
 			b := batches[d]
 			if b.del >= firedBefore {
